@@ -19,6 +19,11 @@ variable (s : St) (t : Tid) (p : PC) (l : List Msg) (u : Tid)
 @[simp, grind =] theorem setPc_todo : (s.setPc t p).todo = s.todo := rfl
 @[simp, grind =] theorem setPc_prog : (s.setPc t p).prog = s.prog := rfl
 @[simp, grind =] theorem setPc_wait : (s.setPc t p).wait = s.wait := rfl
+@[simp, grind =] theorem setPc_dead : (s.setPc t p).dead = s.dead := rfl
+@[simp, grind =] theorem setPc_lost : (s.setPc t p).lost = s.lost := rfl
+@[simp, grind =] theorem setPc_stub : (s.setPc t p).stub = s.stub := rfl
+@[simp, grind =] theorem setPc_started : (s.setPc t p).started = s.started := rfl
+@[simp, grind =] theorem setPc_root : (s.setPc t p).root = s.root := rfl
 @[simp, grind =] theorem setPc_next : (s.setPc t p).next = s.next := rfl
 @[simp, grind =] theorem setTodo_todo : (s.setTodo t l).todo u = if u = t then l else s.todo u := rfl
 @[simp, grind =] theorem setTodo_pc : (s.setTodo t l).pc = s.pc := rfl
@@ -32,6 +37,11 @@ variable (s : St) (t : Tid) (p : PC) (l : List Msg) (u : Tid)
 @[simp, grind =] theorem setTodo_holder : (s.setTodo t l).holder = s.holder := rfl
 @[simp, grind =] theorem setTodo_prog : (s.setTodo t l).prog = s.prog := rfl
 @[simp, grind =] theorem setTodo_wait : (s.setTodo t l).wait = s.wait := rfl
+@[simp, grind =] theorem setTodo_dead : (s.setTodo t l).dead = s.dead := rfl
+@[simp, grind =] theorem setTodo_lost : (s.setTodo t l).lost = s.lost := rfl
+@[simp, grind =] theorem setTodo_stub : (s.setTodo t l).stub = s.stub := rfl
+@[simp, grind =] theorem setTodo_started : (s.setTodo t l).started = s.started := rfl
+@[simp, grind =] theorem setTodo_root : (s.setTodo t l).root = s.root := rfl
 @[simp, grind =] theorem setTodo_next : (s.setTodo t l).next = s.next := rfl
 end proj
 
@@ -44,17 +54,23 @@ structure Inv (s : St) : Prop where
   cs_iff : ∀ t, inCS (s.pc t) = true ↔ s.holder = some t
   hand_w : ∀ t, s.pc t = .write → ∃ h, s.hand = some h ∧ s.nw < nparts h
   hand_n : s.hand = none ∨ ∃ t, s.holder = some t ∧ s.pc t = .write
-  conserve : s.out ++ s.hand.toList ++ s.queue = s.appended
-  contig : s.wire = s.out.flatMap pieces ++ partialPkt s
+  conserve : s.out ++ s.lost ++ s.hand.toList ++ s.queue = s.appended
+  contig : s.wire = s.out.flatMap pieces ++ s.stub ++ partialPkt s
   pop_ok : ∀ t, s.pc t = .pop → s.queue ≠ []
-  live : s.queue ≠ [] → s.lock = true ∨ ∃ t, s.pc t = .check ∨ s.pc t = .tryLock
+  live : s.queue ≠ [] → s.dead = true ∨ s.lock = true ∨ ∃ t, s.pc t = .check ∨ s.pc t = .tryLock
   nocrash : ∀ t, s.pc t ≠ .crash
+  alive : s.dead = false → s.lost = [] ∧ s.stub = []
+  relx_dead : ∀ t, s.pc t = .releaseX → s.dead = true
+  cut : s.stub = [] ∨ (s.nw = 0 ∧ ∃ x k, s.stub = (pieces x).take k)
 
 theorem Inv.init (n : Nat) (prog : Tid → List Msg) : Inv (init n prog) := by
-  refine ⟨rfl, ?_, ?_, Or.inl rfl, rfl, rfl, ?_, ?_, ?_⟩ <;> simp [SendQ.init, inCS]
+  refine ⟨rfl, ?_, ?_, Or.inl rfl, rfl, rfl, ?_, ?_, ?_, ?_, ?_, Or.inl rfl⟩ <;> simp [SendQ.init, inCS]
 
 theorem Inv.setTodo {s : St} (h : Inv s) (t : Tid) (l : List Msg) : Inv (s.setTodo t l) :=
-  ⟨h.lock_holder, h.cs_iff, h.hand_w, h.hand_n, h.conserve, h.contig, h.pop_ok, h.live, h.nocrash⟩
+  ⟨h.lock_holder, h.cs_iff, h.hand_w, h.hand_n, h.conserve, h.contig, h.pop_ok, h.live, h.nocrash, h.alive, h.relx_dead, h.cut⟩
+
+theorem Inv.setStarted {s : St} (h : Inv s) (l : List Item) : Inv { s with started := l } :=
+  ⟨h.lock_holder, h.cs_iff, h.hand_w, h.hand_n, h.conserve, h.contig, h.pop_ok, h.live, h.nocrash, h.alive, h.relx_dead, h.cut⟩
 
 theorem nparts_pos (it : Item) : 0 < nparts it := by unfold nparts; split <;> decide
 
@@ -73,11 +89,11 @@ theorem Inv.pcOnly {s : St} {t : Tid} {p1 : PC} (h : Inv s)
     (hcs : inCS p1 = inCS (s.pc t))
     (hw : p1 = .write ↔ s.pc t = .write)
     (hpop : p1 = .pop → s.queue ≠ [])
-    (hcr : p1 ≠ .crash)
+    (hcr : p1 ≠ .crash) (hrx : p1 ≠ .releaseX)
     (hlive : s.pc t = .check ∨ s.pc t = .tryLock → p1 = .check ∨ p1 = .tryLock ∨ s.queue = [] ∨ s.lock = true) :
     Inv (s.setPc t p1) := by
-  obtain ⟨h1, h2, h3, h4, h5, h6, h7, h8, h9⟩ := h
-  refine ⟨h1, ?_, ?_, ?_, h5, h6, ?_, ?_, ?_⟩
+  obtain ⟨h1, h2, h3, h4, h5, h6, h7, h8, h9, h10, h11, h12⟩ := h
+  refine ⟨h1, ?_, ?_, ?_, h5, h6, ?_, ?_, ?_, h10, ?_, h12⟩
   · intro u; by_cases hu : u = t
     · subst hu; simpa [hcs] using h2 u
     · simpa [hu] using h2 u
@@ -94,20 +110,24 @@ theorem Inv.pcOnly {s : St} {t : Tid} {p1 : PC} (h : Inv s)
     · subst hu; intro hh; simp at hh; exact hpop hh
     · simpa [hu] using h7 u
   · intro hq
-    show s.lock = true ∨ _
-    rcases h8 hq with hl | ⟨v, hv⟩
-    · exact Or.inl hl
+    show s.dead = true ∨ s.lock = true ∨ _
+    rcases h8 hq with hd | hl | ⟨v, hv⟩
+    · exact Or.inl hd
+    · exact Or.inr (Or.inl hl)
     · by_cases hvt : v = t
       · subst hvt
         rcases hlive hv with a | a | a | a
-        · exact Or.inr ⟨v, by simp [a]⟩
-        · exact Or.inr ⟨v, by simp [a]⟩
+        · exact Or.inr (Or.inr ⟨v, by simp [a]⟩)
+        · exact Or.inr (Or.inr ⟨v, by simp [a]⟩)
         · exact absurd a hq
-        · exact Or.inl a
-      · exact Or.inr ⟨v, by simpa [hvt] using hv⟩
+        · exact Or.inr (Or.inl a)
+      · exact Or.inr (Or.inr ⟨v, by simpa [hvt] using hv⟩)
   · intro u; by_cases hu : u = t
     · subst hu; simpa using hcr
     · simpa [hu] using h9 u
+  · intro u; by_cases hu : u = t
+    · subst hu; intro hh; simp at hh; exact absurd hh hrx
+    · simpa [hu] using h11 u
 
 theorem Inv.cs_unique {s : St} (h : Inv s) {t u : Tid} (ht : s.holder = some t) (hu : inCS (s.pc u) = true) :
     u = t := by
@@ -117,8 +137,8 @@ theorem Inv.cs_unique {s : St} (h : Inv s) {t u : Tid} (ht : s.holder = some t) 
 
 theorem Inv.append {s : St} {t : Tid} {m : Msg} (h : Inv s) (hpc : s.pc t = .append m) :
     Inv ({ s with queue := s.queue ++ [(t, m)], appended := s.appended ++ [(t, m)] }.setPc t .check) := by
-  obtain ⟨h1, h2, h3, h4, h5, h6, h7, h8, h9⟩ := h
-  refine ⟨h1, ?_, ?_, ?_, ?_, h6, ?_, ?_, ?_⟩
+  obtain ⟨h1, h2, h3, h4, h5, h6, h7, h8, h9, h10, h11, h12⟩ := h
+  refine ⟨h1, ?_, ?_, ?_, ?_, h6, ?_, ?_, ?_, h10, ?_, h12⟩
   · intro u; by_cases hu : u = t
     · subst hu; simpa [hpc, inCS] using h2 u
     · simpa [hu] using h2 u
@@ -134,19 +154,22 @@ theorem Inv.append {s : St} {t : Tid} {m : Msg} (h : Inv s) (hpc : s.pc t = .app
   · intro u; by_cases hu : u = t
     · subst hu; simp
     · simp [hu]
-  · intro _; exact Or.inr ⟨t, by simp⟩
+  · intro _; exact Or.inr (Or.inr ⟨t, by simp⟩)
   · intro u; by_cases hu : u = t
     · subst hu; simp
     · simpa [hu] using h9 u
+  · intro u; by_cases hu : u = t
+    · subst hu; simp
+    · simpa [hu] using h11 u
 
 theorem Inv.acquire {s : St} {t : Tid} (h : Inv s) (hpc : s.pc t = .tryLock) (hl : s.lock = false) :
     Inv ({ s with lock := true, holder := some t }.setPc t .recheck) := by
-  obtain ⟨h1, h2, h3, h4, h5, h6, h7, h8, h9⟩ := h
+  obtain ⟨h1, h2, h3, h4, h5, h6, h7, h8, h9, h10, h11, h12⟩ := h
   have hnone : s.holder = none := by
     rw [hl] at h1; cases hh : s.holder with
     | none => rfl
     | some v => simp [hh] at h1
-  refine ⟨rfl, ?_, ?_, ?_, h5, h6, ?_, ?_, ?_⟩
+  refine ⟨rfl, ?_, ?_, ?_, h5, h6, ?_, ?_, ?_, h10, ?_, h12⟩
   · intro u; by_cases hu : u = t
     · subst hu; simp [inCS]
     · have := h2 u
@@ -162,10 +185,13 @@ theorem Inv.acquire {s : St} {t : Tid} (h : Inv s) (hpc : s.pc t = .tryLock) (hl
   · intro u; by_cases hu : u = t
     · subst hu; simp
     · simpa [hu] using h7 u
-  · intro _; exact Or.inl rfl
+  · intro _; exact Or.inr (Or.inl rfl)
   · intro u; by_cases hu : u = t
     · subst hu; simp
     · simpa [hu] using h9 u
+  · intro u; by_cases hu : u = t
+    · subst hu; simp
+    · simpa [hu] using h11 u
 
 theorem Inv.holder_of_cs {s : St} (h : Inv s) {t : Tid} (hcs : inCS (s.pc t) = true) :
     s.holder = some t ∧ s.lock = true := by
@@ -188,8 +214,8 @@ theorem Inv.pop {s : St} {t : Tid} {x : Item} {q : List Item} (h : Inv s) (hpc :
   obtain ⟨ht, hlk⟩ := h.holder_of_cs hcs
   have hnone := h.hand_none hcs (by rw [hpc]; simp)
   have huniq := fun u => h.cs_unique (u := u) ht
-  obtain ⟨h1, h2, h3, h4, h5, h6, h7, h8, h9⟩ := h
-  refine ⟨h1, ?_, ?_, ?_, ?_, ?_, ?_, ?_, ?_⟩
+  obtain ⟨h1, h2, h3, h4, h5, h6, h7, h8, h9, h10, h11, h12⟩ := h
+  refine ⟨h1, ?_, ?_, ?_, ?_, ?_, ?_, ?_, ?_, h10, ?_, ?_⟩
   · intro u; by_cases hu : u = t
     · subst hu; simpa [inCS] using ht
     · simpa [hu] using h2 u
@@ -205,31 +231,38 @@ theorem Inv.pop {s : St} {t : Tid} {x : Item} {q : List Item} (h : Inv s) (hpc :
     · subst hu; simp
     · intro hw; simp [hu] at hw
       exact absurd (huniq u (by rw [hw]; rfl)) hu
-  · intro _; exact Or.inl hlk
+  · intro _; exact Or.inr (Or.inl hlk)
   · intro u; by_cases hu : u = t
     · subst hu; simp
     · simpa [hu] using h9 u
+  · intro u; by_cases hu : u = t
+    · subst hu; simp
+    · simpa [hu] using h11 u
+  · rcases h12 with hc | ⟨_, hc⟩
+    · exact Or.inl hc
+    · exact Or.inr ⟨rfl, hc⟩
 
 theorem Inv.writeMid {s : St} {t : Tid} {x : Item} (h : Inv s) (_hpc : s.pc t = .write)
-    (hh : s.hand = some x) (hlt : s.nw + 1 < nparts x) :
+    (hh : s.hand = some x) (hlt : s.nw + 1 < nparts x) (hd : s.dead = false) :
     Inv { s with wire := s.wire ++ [(x, s.nw)], nw := s.nw + 1 } := by
-  obtain ⟨h1, h2, h3, h4, h5, h6, h7, h8, h9⟩ := h
-  refine ⟨h1, h2, ?_, h4, h5, ?_, h7, h8, h9⟩
+  obtain ⟨h1, h2, h3, h4, h5, h6, h7, h8, h9, h10, h11, h12⟩ := h
+  refine ⟨h1, h2, ?_, h4, h5, ?_, h7, h8, h9, h10, h11, Or.inl (h10 hd).2⟩
   · intro u _; exact ⟨x, hh, hlt⟩
   · simp only [partialPkt, hh] at h6 ⊢
     rw [h6, pieces_take_succ x s.nw (by omega), List.append_assoc]
 
 theorem Inv.writeLast {s : St} {t : Tid} {x : Item} (h : Inv s) (hpc : s.pc t = .write)
-    (hh : s.hand = some x) (hlt : ¬ s.nw + 1 < nparts x) :
+    (hh : s.hand = some x) (hlt : ¬ s.nw + 1 < nparts x) (hd : s.dead = false) :
     Inv ({ s with wire := s.wire ++ [(x, s.nw)], nw := 0, hand := none, out := s.out ++ [x] }.setPc t .release) := by
   have hcs : inCS (s.pc t) = true := by rw [hpc]; rfl
   obtain ⟨ht, hlk⟩ := h.holder_of_cs hcs
   have huniq := fun u => h.cs_unique (u := u) ht
-  obtain ⟨h1, h2, h3, h4, h5, h6, h7, h8, h9⟩ := h
+  obtain ⟨h1, h2, h3, h4, h5, h6, h7, h8, h9, h10, h11, h12⟩ := h
   have hnw : s.nw + 1 = nparts x := by
     obtain ⟨y, hy, hlt'⟩ := h3 t hpc
     rw [hh] at hy; cases hy; omega
-  refine ⟨h1, ?_, ?_, Or.inl rfl, ?_, ?_, ?_, ?_, ?_⟩
+  obtain ⟨hlost, hstub⟩ := h10 hd
+  refine ⟨h1, ?_, ?_, Or.inl rfl, ?_, ?_, ?_, ?_, ?_, h10, ?_, Or.inl hstub⟩
   · intro u; by_cases hu : u = t
     · subst hu; simpa [inCS] using ht
     · simpa [hu] using h2 u
@@ -237,9 +270,9 @@ theorem Inv.writeLast {s : St} {t : Tid} {x : Item} (h : Inv s) (hpc : s.pc t = 
     · subst hu; simp
     · intro hw; simp [hu] at hw
       exact absurd (huniq u (by rw [hw]; rfl)) hu
-  · rw [hh] at h5; simpa using h5
-  · simp only [partialPkt, hh] at h6
-    simp only [setPc_wire, setPc_out, partialPkt, setPc_hand, List.flatMap_append, List.append_nil]
+  · rw [hh, hlost] at h5; simpa [hlost] using h5
+  · simp only [partialPkt, hh, hstub, List.append_nil] at h6
+    simp only [setPc_wire, setPc_out, setPc_stub, partialPkt, setPc_hand, List.flatMap_append, List.append_nil, hstub]
     rw [h6, List.append_assoc]
     congr 1
     rw [← pieces_take_succ x s.nw (by omega), hnw, pieces_take_all]
@@ -247,10 +280,47 @@ theorem Inv.writeLast {s : St} {t : Tid} {x : Item} (h : Inv s) (hpc : s.pc t = 
   · intro u; by_cases hu : u = t
     · subst hu; simp
     · simpa [hu] using h7 u
-  · intro _; exact Or.inl hlk
+  · intro _; exact Or.inr (Or.inl hlk)
   · intro u; by_cases hu : u = t
     · subst hu; simp
     · simpa [hu] using h9 u
+  · intro u; by_cases hu : u = t
+    · subst hu; simp
+    · simpa [hu] using h11 u
+
+theorem Inv.writeFail {s : St} {t : Tid} {x : Item} (h : Inv s) (hpc : s.pc t = .write)
+    (hh : s.hand = some x) (hd : s.dead = true) :
+    Inv ({ s with hand := none, nw := 0, lost := s.lost ++ [x],
+                  stub := s.stub ++ (pieces x).take s.nw }.setPc t .releaseX) := by
+  have hcs : inCS (s.pc t) = true := by rw [hpc]; rfl
+  obtain ⟨ht, hlk⟩ := h.holder_of_cs hcs
+  have huniq := fun u => h.cs_unique (u := u) ht
+  obtain ⟨h1, h2, h3, h4, h5, h6, h7, h8, h9, h10, h11, h12⟩ := h
+  refine ⟨h1, ?_, ?_, Or.inl rfl, ?_, ?_, ?_, ?_, ?_, ?_, ?_, ?_⟩
+  · intro u; by_cases hu : u = t
+    · subst hu; simpa [inCS] using ht
+    · simpa [hu] using h2 u
+  · intro u; by_cases hu : u = t
+    · subst hu; simp
+    · intro hw; simp [hu] at hw
+      exact absurd (huniq u (by rw [hw]; rfl)) hu
+  · rw [hh] at h5; simpa [List.append_assoc] using h5
+  · simp only [partialPkt, hh] at h6
+    simp only [setPc_wire, setPc_out, setPc_stub, partialPkt, setPc_hand, List.append_nil]
+    rw [h6]; simp [List.append_assoc]
+  · intro u; by_cases hu : u = t
+    · subst hu; simp
+    · simpa [hu] using h7 u
+  · intro _; exact Or.inl hd
+  · intro u; by_cases hu : u = t
+    · subst hu; simp
+    · simpa [hu] using h9 u
+  · intro hd'; simp only [setPc_dead] at hd'; rw [hd] at hd'; cases hd'
+  · intro u _; exact hd
+  · refine Or.inr ⟨rfl, ?_⟩
+    rcases h12 with hc | ⟨hnw, y, k, hc⟩
+    · exact ⟨x, s.nw, by simp [hc]⟩
+    · exact ⟨y, k, by simp [hc, hnw]⟩
 
 theorem Inv.release {s : St} {t : Tid} (h : Inv s) (hpc : s.pc t = .release) :
     Inv ({ s with lock := false, holder := none }.setPc t .check) := by
@@ -258,8 +328,8 @@ theorem Inv.release {s : St} {t : Tid} (h : Inv s) (hpc : s.pc t = .release) :
   obtain ⟨ht, hlk⟩ := h.holder_of_cs hcs
   have hnone := h.hand_none hcs (by rw [hpc]; simp)
   have huniq := fun u => h.cs_unique (u := u) ht
-  obtain ⟨h1, h2, h3, h4, h5, h6, h7, h8, h9⟩ := h
-  refine ⟨rfl, ?_, ?_, Or.inl hnone, h5, h6, ?_, ?_, ?_⟩
+  obtain ⟨h1, h2, h3, h4, h5, h6, h7, h8, h9, h10, h11, h12⟩ := h
+  refine ⟨rfl, ?_, ?_, Or.inl hnone, h5, h6, ?_, ?_, ?_, h10, ?_, h12⟩
   · intro u; by_cases hu : u = t
     · subst hu; simp [inCS]
     · have : inCS (s.pc u) = false := by
@@ -273,10 +343,43 @@ theorem Inv.release {s : St} {t : Tid} (h : Inv s) (hpc : s.pc t = .release) :
   · intro u; by_cases hu : u = t
     · subst hu; simp
     · simpa [hu] using h7 u
-  · intro _; exact Or.inr ⟨t, by simp⟩
+  · intro _; exact Or.inr (Or.inr ⟨t, by simp⟩)
   · intro u; by_cases hu : u = t
     · subst hu; simp
     · simpa [hu] using h9 u
+  · intro u; by_cases hu : u = t
+    · subst hu; simp
+    · simpa [hu] using h11 u
+
+theorem Inv.releaseX {s : St} {t : Tid} (h : Inv s) (hpc : s.pc t = .releaseX) :
+    Inv ({ s with lock := false, holder := none }.setPc t .idle) := by
+  have hcs : inCS (s.pc t) = true := by rw [hpc]; rfl
+  obtain ⟨ht, hlk⟩ := h.holder_of_cs hcs
+  have hnone := h.hand_none hcs (by rw [hpc]; simp)
+  have huniq := fun u => h.cs_unique (u := u) ht
+  have hdead := h.relx_dead t hpc
+  obtain ⟨h1, h2, h3, h4, h5, h6, h7, h8, h9, h10, h11, h12⟩ := h
+  refine ⟨rfl, ?_, ?_, Or.inl hnone, h5, h6, ?_, ?_, ?_, h10, ?_, h12⟩
+  · intro u; by_cases hu : u = t
+    · subst hu; simp [inCS]
+    · have : inCS (s.pc u) = false := by
+        cases hc : inCS (s.pc u) with
+        | false => rfl
+        | true => exact absurd (huniq u hc) hu
+      simp [hu, this]
+  · intro u; by_cases hu : u = t
+    · subst hu; simp
+    · simpa [hu] using h3 u
+  · intro u; by_cases hu : u = t
+    · subst hu; simp
+    · simpa [hu] using h7 u
+  · intro _; exact Or.inl hdead
+  · intro u; by_cases hu : u = t
+    · subst hu; simp
+    · simpa [hu] using h9 u
+  · intro u; by_cases hu : u = t
+    · subst hu; simp
+    · simpa [hu] using h11 u
 
 /-- the invariant is preserved by every line of every thread -/
 theorem Inv.step {s s' : St} {t : Tid} (h : Inv s) (hs : step s t = some s') : Inv s' := by
@@ -287,21 +390,22 @@ theorem Inv.step {s s' : St} {t : Tid} (h : Inv s) (hs : step s t = some s') : I
     · cases hs
     next m rest htodo =>
       cases hs
-      exact (h.setTodo t rest).pcOnly (by simp [hpc, inCS]) (by simp [hpc]) (by simp) (by simp) (by simp [hpc])
+      exact ((h.setStarted _).setTodo t rest).pcOnly (by simp [hpc, inCS]) (by simp [hpc]) (by simp) (by simp) (by simp)
+        (by simp [hpc])
   next m hpc => -- append
     cases hs; exact h.append hpc
   next hpc => -- check
     split at hs
-    next hq => cases hs; exact h.pcOnly (by simp [hpc, inCS]) (by simp [hpc]) (by simp) (by simp) (by simp [hq])
-    next hq => cases hs; exact h.pcOnly (by simp [hpc, inCS]) (by simp [hpc]) (by simp) (by simp) (by simp)
+    next hq => cases hs; exact h.pcOnly (by simp [hpc, inCS]) (by simp [hpc]) (by simp) (by simp) (by simp) (by simp [hq])
+    next hq => cases hs; exact h.pcOnly (by simp [hpc, inCS]) (by simp [hpc]) (by simp) (by simp) (by simp) (by simp)
   next hpc => -- tryLock
     split at hs
-    next hl => cases hs; exact h.pcOnly (by simp [hpc, inCS]) (by simp [hpc]) (by simp) (by simp) (by simp [hl])
+    next hl => cases hs; exact h.pcOnly (by simp [hpc, inCS]) (by simp [hpc]) (by simp) (by simp) (by simp) (by simp [hl])
     next hl => cases hs; exact h.acquire hpc hl
   next hpc => -- recheck
     split at hs
-    next hq => cases hs; exact h.pcOnly (by simp [hpc, inCS]) (by simp [hpc]) (by simp) (by simp) (by simp [hpc])
-    next x q hq => cases hs; exact h.pcOnly (by simp [hpc, inCS]) (by simp [hpc]) (by simp [hq]) (by simp) (by simp [hpc])
+    next hq => cases hs; exact h.pcOnly (by simp [hpc, inCS]) (by simp [hpc]) (by simp) (by simp) (by simp) (by simp [hpc])
+    next x q hq => cases hs; exact h.pcOnly (by simp [hpc, inCS]) (by simp [hpc]) (by simp [hq]) (by simp) (by simp) (by simp [hpc])
   next hpc => -- pop
     split at hs
     next hq => exact absurd hq (h.pop_ok t hpc)
@@ -311,18 +415,32 @@ theorem Inv.step {s s' : St} {t : Tid} (h : Inv s) (hs : step s t = some s') : I
     next hh => obtain ⟨x, hx, _⟩ := h.hand_w t hpc; rw [hh] at hx; cases hx
     next x hh =>
       split at hs
-      next hlt => cases hs; exact h.writeMid hpc hh hlt
-      next hlt => cases hs; exact h.writeLast hpc hh hlt
+      next hd => cases hs; exact h.writeFail hpc hh hd
+      next hd =>
+        have hd' : s.dead = false := by cases hx : s.dead <;> simp_all
+        split at hs
+        next hlt => cases hs; exact h.writeMid hpc hh hlt hd'
+        next hlt => cases hs; exact h.writeLast hpc hh hlt hd'
   next hpc => -- release
     split at hs
     next hl => cases hs; exact h.release hpc
     next hl =>
       have := (h.holder_of_cs (t := t) (by rw [hpc]; rfl)).2
       rw [hl] at this; cases this
+  next hpc => -- releaseX
+    split at hs
+    next hl => cases hs; exact h.releaseX hpc
+    next hl =>
+      have := (h.holder_of_cs (t := t) (by rw [hpc]; rfl)).2
+      rw [hl] at this; cases this
   next hpc => cases hs
 
 theorem Inv.reenter {s : St} (h : Inv s) (p : Tid) (m : Msg) : Inv (reenter s p m) :=
-  ⟨h.lock_holder, h.cs_iff, h.hand_w, h.hand_n, h.conserve, h.contig, h.pop_ok, h.live, h.nocrash⟩
+  ⟨h.lock_holder, h.cs_iff, h.hand_w, h.hand_n, h.conserve, h.contig, h.pop_ok, h.live, h.nocrash, h.alive, h.relx_dead, h.cut⟩
+
+theorem Inv.brk {s : St} (h : Inv s) : Inv (breakTransport s) :=
+  ⟨h.lock_holder, h.cs_iff, h.hand_w, h.hand_n, h.conserve, h.contig, h.pop_ok, fun _ => Or.inl rfl, h.nocrash,
+   fun hd => by simp [breakTransport] at hd, fun _ _ => rfl, h.cut⟩
 
 /-! ### what a line of thread `t` can change (frame) -/
 
@@ -331,11 +449,19 @@ theorem issued_append (x : Item) (u : Tid) (a : List Item) :
       = (a.filter (fun it => it.1 == u)).map (·.2) ++ (if x.1 = u then [x.2] else []) := by
   by_cases h : x.1 = u <;> simp [List.filter_append, h]
 
+/-- one line of thread `t` is of one of three kinds with respect to the call log -/
+inductive StepKind (s s' : St) (t : Tid) : Prop where
+  | start (m : Msg) : s.pc t = .idle → s'.pc t = .append m → s.todo t = m :: s'.todo t →
+      s'.started = s.started ++ [(t, m)] → s'.appended = s.appended → StepKind s s' t
+  | append (m : Msg) : s.pc t = .append m → s'.pc t = .check → s'.todo t = s.todo t →
+      s'.started = s.started → s'.appended = s.appended ++ [(t, m)] → StepKind s s' t
+  | other : (∀ m, s.pc t ≠ .append m) → (∀ m, s'.pc t ≠ .append m) → s'.todo t = s.todo t →
+      s'.started = s.started → s'.appended = s.appended → StepKind s s' t
+
 theorem step_frame {s s' : St} {t : Tid} (hs : step s t = some s') :
-    s'.wait = s.wait ∧ s'.next = s.next ∧ s'.prog = s.prog
+    s'.wait = s.wait ∧ s'.next = s.next ∧ s'.prog = s.prog ∧ s'.root = s.root
     ∧ (∀ u, u ≠ t → s'.pc u = s.pc u ∧ s'.todo u = s.todo u)
-    ∧ ((s'.appended = s.appended ∧ pending s' t = pending s t)
-       ∨ (∃ m, s'.appended = s.appended ++ [(t, m)] ∧ pending s t = m :: pending s' t)) := by
+    ∧ StepKind s s' t := by
   unfold SendQ.step at hs
   split at hs
   next hpc =>
@@ -343,35 +469,51 @@ theorem step_frame {s s' : St} {t : Tid} (hs : step s t = some s') :
     · cases hs
     next m rest htodo =>
       cases hs
-      refine ⟨rfl, rfl, rfl, fun u hu => by simp [hu], Or.inl ⟨rfl, ?_⟩⟩
-      simp [pending, hpc, htodo]
+      exact ⟨rfl, rfl, rfl, rfl, fun u hu => by simp [hu], .start m hpc (by simp) (by simp [htodo]) rfl rfl⟩
   next m hpc =>
     cases hs
-    refine ⟨rfl, rfl, rfl, fun u hu => by simp [hu], Or.inr ⟨m, rfl, ?_⟩⟩
-    simp [pending, hpc]
+    exact ⟨rfl, rfl, rfl, rfl, fun u hu => by simp [hu], .append m hpc (by simp) rfl rfl rfl⟩
   next hpc =>
     split at hs <;> cases hs <;>
-      exact ⟨rfl, rfl, rfl, fun u hu => by simp [hu], Or.inl ⟨rfl, by simp [pending, hpc]⟩⟩
+      exact ⟨rfl, rfl, rfl, rfl, fun u hu => by simp [hu], .other (by simp [hpc]) (by simp) rfl rfl rfl⟩
   next hpc =>
     split at hs <;> cases hs <;>
-      exact ⟨rfl, rfl, rfl, fun u hu => by simp [hu], Or.inl ⟨rfl, by simp [pending, hpc]⟩⟩
+      exact ⟨rfl, rfl, rfl, rfl, fun u hu => by simp [hu], .other (by simp [hpc]) (by simp) rfl rfl rfl⟩
   next hpc =>
     split at hs <;> cases hs <;>
-      exact ⟨rfl, rfl, rfl, fun u hu => by simp [hu], Or.inl ⟨rfl, by simp [pending, hpc]⟩⟩
+      exact ⟨rfl, rfl, rfl, rfl, fun u hu => by simp [hu], .other (by simp [hpc]) (by simp) rfl rfl rfl⟩
   next hpc =>
     split at hs <;> cases hs <;>
-      exact ⟨rfl, rfl, rfl, fun u hu => by simp [hu], Or.inl ⟨rfl, by simp [pending, hpc]⟩⟩
+      exact ⟨rfl, rfl, rfl, rfl, fun u hu => by simp [hu], .other (by simp [hpc]) (by simp) rfl rfl rfl⟩
   next hpc =>
     split at hs
     · cases hs
-      exact ⟨rfl, rfl, rfl, fun u hu => by simp [hu], Or.inl ⟨rfl, by simp [pending, hpc]⟩⟩
-    · split at hs <;> cases hs
-      · exact ⟨rfl, rfl, rfl, fun u hu => ⟨rfl, rfl⟩, Or.inl ⟨rfl, by simp [pending, hpc]⟩⟩
-      · exact ⟨rfl, rfl, rfl, fun u hu => by simp [hu], Or.inl ⟨rfl, by simp [pending, hpc]⟩⟩
+      exact ⟨rfl, rfl, rfl, rfl, fun u hu => by simp [hu], .other (by simp [hpc]) (by simp) rfl rfl rfl⟩
+    · split at hs
+      · cases hs
+        exact ⟨rfl, rfl, rfl, rfl, fun u hu => by simp [hu], .other (by simp [hpc]) (by simp) rfl rfl rfl⟩
+      · split at hs <;> cases hs
+        · exact ⟨rfl, rfl, rfl, rfl, fun u hu => ⟨rfl, rfl⟩, .other (by simp [hpc]) (by simp [hpc]) rfl rfl rfl⟩
+        · exact ⟨rfl, rfl, rfl, rfl, fun u hu => by simp [hu], .other (by simp [hpc]) (by simp) rfl rfl rfl⟩
   next hpc =>
     split at hs <;> cases hs <;>
-      exact ⟨rfl, rfl, rfl, fun u hu => by simp [hu], Or.inl ⟨rfl, by simp [pending, hpc]⟩⟩
+      exact ⟨rfl, rfl, rfl, rfl, fun u hu => by simp [hu], .other (by simp [hpc]) (by simp) rfl rfl rfl⟩
+  next hpc =>
+    split at hs <;> cases hs <;>
+      exact ⟨rfl, rfl, rfl, rfl, fun u hu => by simp [hu], .other (by simp [hpc]) (by simp) rfl rfl rfl⟩
   next hpc => cases hs
+
+theorem StepKind.pending {s s' : St} {t : Tid} (k : StepKind s s' t) :
+    (s'.appended = s.appended ∧ pending s' t = pending s t)
+    ∨ (∃ m, s'.appended = s.appended ++ [(t, m)] ∧ pending s t = m :: pending s' t) := by
+  cases k with
+  | start m h1 h2 h3 h4 h5 => exact Or.inl ⟨h5, by simp [SendQ.pending, h1, h2, h3]⟩
+  | append m h1 h2 h3 h4 h5 => exact Or.inr ⟨m, h5, by simp [SendQ.pending, h1, h2, h3]⟩
+  | other h1 h2 h3 h4 h5 =>
+    refine Or.inl ⟨h5, ?_⟩
+    unfold SendQ.pending
+    rw [h3]
+    cases hp : s.pc t <;> cases hp' : s'.pc t <;> simp_all
 
 theorem step_none_of_done {s : St} {t : Tid} (h : isDone s t) : step s t = none := by
   unfold SendQ.step; simp [h.1, h.2]
@@ -383,21 +525,23 @@ theorem step_isSome {s : St} {t : Tid} (hc : s.pc t ≠ .crash) (hd : ¬ isDone 
     split
     next htodo => exact absurd ⟨hpc, htodo⟩ hd
     · rfl
-  all_goals first | rfl | (split <;> first | rfl | (split <;> rfl)) | exact absurd ‹_› hc
+  all_goals first | rfl | (split <;> first | rfl | (split <;> first | rfl | (split <;> rfl))) | exact absurd ‹_› hc
 
 /-- nesting discipline of re-entrant sends, thread tags, and each thread's program order -/
 structure Nest (s : St) : Prop where
   wait_lt : ∀ p c, s.wait p = some c → p < c ∧ c < s.next
   fresh : ∀ t, s.next ≤ t → s.pc t = .idle ∧ s.todo t = [] ∧ s.wait t = none
   tags : ∀ it ∈ s.appended, it.1 < s.next
+  stags : ∀ it ∈ s.started, it.1 < s.next
   order : ∀ t, issued s t ++ pending s t = s.prog t
 
 theorem Nest.init (n : Nat) (prog : Tid → List Msg) : Nest (init n prog) := by
-  refine ⟨?_, ?_, ?_, ?_⟩
+  refine ⟨?_, ?_, ?_, ?_, ?_⟩
   · intro p c h; simp [SendQ.init] at h
   · intro t ht
     have : ¬ t < n := by simpa [SendQ.init] using ht
     simp [SendQ.init, this]
+  · intro it h; simp [SendQ.init] at h
   · intro it h; simp [SendQ.init] at h
   · intro t; simp [SendQ.init, issued, pending]
 
@@ -418,10 +562,11 @@ theorem Nest.lt_next {s s' : St} {t : Tid} (h : Nest s) (hs : step s t = some s'
 
 theorem Nest.step {s s' : St} {t : Tid} (h : Nest s) (hs : step s t = some s') : Nest s' := by
   have ht := h.lt_next hs
-  obtain ⟨hw, hn, hp, hoth, happ⟩ := step_frame hs
+  obtain ⟨hw, hn, hp, _, hoth, hk⟩ := step_frame hs
+  have happ := hk.pending
   have hpend : ∀ u, u ≠ t → pending s' u = pending s u := by
     intro u hu; unfold pending; rw [(hoth u hu).1, (hoth u hu).2]
-  refine ⟨?_, ?_, ?_, ?_⟩
+  refine ⟨?_, ?_, ?_, ?_, ?_⟩
   · intro p c hpc; rw [hw] at hpc; rw [hn]; exact h.wait_lt p c hpc
   · intro u hu
     rw [hn] at hu
@@ -436,6 +581,16 @@ theorem Nest.step {s s' : St} {t : Tid} (h : Nest s) (hs : step s t = some s') :
       rcases List.mem_append.1 hit with hit | hit
       · exact h.tags it hit
       · simp at hit; subst hit; exact ht
+  · intro it hit
+    rw [hn]
+    cases hk with
+    | start m _ _ _ h4 _ =>
+      rw [h4] at hit
+      rcases List.mem_append.1 hit with hit | hit
+      · exact h.stags it hit
+      · simp at hit; subst hit; exact ht
+    | append m _ _ _ h4 _ => rw [h4] at hit; exact h.stags it hit
+    | other _ _ _ h4 _ => rw [h4] at hit; exact h.stags it hit
   · intro u
     rw [hp, ← h.order u]
     rcases happ with ⟨ha, hpe⟩ | ⟨m, ha, hpe⟩
@@ -455,7 +610,7 @@ theorem Nest.step {s s' : St} {t : Tid} (h : Nest s) (hs : step s t = some s') :
 
 theorem Nest.reenter {s : St} {p : Tid} (h : Nest s) (hp : p < s.next) (m : Msg) : Nest (reenter s p m) := by
   have hf := h.fresh s.next (Nat.le_refl _)
-  refine ⟨?_, ?_, ?_, ?_⟩
+  refine ⟨?_, ?_, ?_, ?_, ?_⟩
   · intro q c hqc
     simp only [SendQ.reenter] at hqc ⊢
     by_cases hq : q = p
@@ -472,6 +627,9 @@ theorem Nest.reenter {s : St} {p : Tid} (h : Nest s) (hp : p < s.next) (m : Msg)
   · intro it hit
     have := h.tags it hit
     simp only [SendQ.reenter]; omega
+  · intro it hit
+    have := h.stags it hit
+    simp only [SendQ.reenter]; omega
   · intro u
     by_cases hu : u = s.next
     · subst hu
@@ -482,11 +640,23 @@ theorem Nest.reenter {s : St} {p : Tid} (h : Nest s) (hp : p < s.next) (m : Msg)
       simp only [issued, pending, SendQ.reenter, hu, if_false] at this ⊢
       exact this
 
+theorem Nest.brk {s : St} (h : Nest s) : Nest (breakTransport s) :=
+  ⟨h.wait_lt, h.fresh, h.tags, h.stags, h.order⟩
+
 theorem reachable_inv {n : Nat} {prog : Tid → List Msg} {s : St} (h : Reachable n prog s) : Inv s ∧ Nest s := by
   induction h with
   | init => exact ⟨Inv.init n prog, Nest.init n prog⟩
   | step t _ _ hs ih => exact ⟨ih.1.step hs, ih.2.step hs⟩
   | reenter p m _ _ hp ih => exact ⟨ih.1.reenter p m, ih.2.reenter hp m⟩
+  | brk _ ih => exact ⟨ih.1.brk, ih.2.brk⟩
+
+theorem ReachableR.toReachable {n : Nat} {prog : Tid → List Msg} {s : St} (h : ReachableR n prog s) :
+    Reachable n prog s := by
+  induction h with
+  | init => exact .init
+  | step t _ hb hs ih => exact .step t ih hb hs
+  | reenter p m _ hb hp _ ih => exact .reenter p m ih hb hp
+  | brk _ ih => exact .brk ih
 
 /-- the innermost activation on a thread's chain of nested sends can always execute its next line -/
 theorem exists_enabled {s : St} (hI : Inv s) (hN : Nest s) :
@@ -534,6 +704,7 @@ theorem reachable_exec {n : Nat} {prog : Tid → List Msg} {s s' : St} (h : Reac
       split at he
       next hp => cases he; exact Reachable.reenter p m h (fun hbl => hb ((blockedB_iff s p).2 hbl)) hp
       · cases he
+  | brk => simp only [exec] at he; cases he; exact .brk h
 
 theorem reachable_execAll {n : Nat} {prog : Tid → List Msg} (l : List Ev) :
     ∀ {s s' : St}, Reachable n prog s → execAll s l = some s' → Reachable n prog s' := by
@@ -558,6 +729,7 @@ theorem step_wire {s s' : St} {t : Tid} (hs : step s t = some s') : s'.wire = s.
   next hpc => split at hs <;> cases hs <;> exact Or.inl rfl
   next hpc => exact Or.inr hpc
   next hpc => split at hs <;> cases hs <;> exact Or.inl rfl
+  next hpc => split at hs <;> cases hs <;> exact Or.inl rfl
   next hpc => cases hs
 
 /-- the initial threads keep the programs they were given -/
@@ -573,5 +745,6 @@ theorem reachable_prog {n : Nat} {prog : Tid → List Msg} {s : St} (h : Reachab
     have : t ≠ _ := Nat.ne_of_lt (Nat.lt_of_lt_of_le ht ih.1)
     simp only [SendQ.reenter, this, if_false]
     exact ih.2 t ht
+  | brk _ ih => exact ih
 
 end Rpyc.Conc.SendQ
